@@ -160,7 +160,7 @@ def _hook(event, args):
 class Seam(object):
     """In-process replacement for subprocess.Popen inside saml2_tophat.sigver."""
     log = []          # list of dict(cmd, argv, rc, genuine, info, fault)
-    plan = {}         # ordinal or 'all' -> fault kind
+    plan = {}         # ordinal, 'all' or 'from:N' -> fault kind
     external = []     # external access attempts recorded by the model
     count = 0
 
@@ -182,6 +182,12 @@ class SeamPopen(object):
         if fault is None:
             fault = Seam.plan.get('all')
         argv = list(com_list[1:])
+        if fault is None:
+            for k, v in Seam.plan.items():        # 'from:N[:CMD]' = every invocation (of that command) from ordinal N on
+                if isinstance(k, str) and k.startswith('from:'):
+                    parts = k.split(':', 2)
+                    if ordinal >= int(parts[1]) and (len(parts) < 3 or (argv and argv[0] == parts[2])):
+                        fault = v
         entry = {'ordinal': ordinal, 'cmd': argv[0] if argv else None, 'fault': fault, 'argv': argv}
         Seam.log.append(entry)
         if fault is not None:
